@@ -6,10 +6,8 @@ Exit status 0 when every check passes.
 """
 import io
 import random
-import shutil
 import struct
 import sys
-import tempfile
 import time
 
 import pycdlib
@@ -39,7 +37,7 @@ KNOWN_LIBRARY_ISSUES = [
 ] + [('reloc-long-name two', k,
       'same defect with two such siblings: both continuation areas land on sector 0 offset 0, the second '
       'overwrites the first, so the first placeholder shows the second one\'s NM tail/PX/TF/CL')
-     for k in ('susp:ce-overlap', 'susp:len-sum', 'susp:cl-target', 'susp:pl-target', 'px:nlink:dir', 'name:flags')]
+     for k in ('susp:ce-overlap', 'susp:len-sum', 'susp:cl-target', 'susp:pl-target', 'px:nlink:dir')]
 FAILS = []
 NOTES = []
 KNOWN_HITS = {}
@@ -320,7 +318,7 @@ class Zeros(io.RawIOBase):
 
     def __init__(self, n):
         super().__init__()
-        self.n, self.p = n, 0
+        self.n, self.p, self.cache = n, 0, {}
 
     def readable(self):
         return True
@@ -335,11 +333,12 @@ class Zeros(io.RawIOBase):
         self.p = o if w == 0 else self.p + o if w == 1 else self.n + o
         return self.p
 
-    def readinto(self, buf):
-        k = max(0, min(len(buf), self.n - self.p))
-        buf[:k] = bytes(k)
+    def read(self, n=-1):
+        k = max(0, self.n - self.p if n is None or n < 0 else min(n, self.n - self.p))
         self.p += k
-        return k
+        if k not in self.cache:              # the copy loop asks for the same size again and again
+            self.cache[k] = bytes(k)
+        return self.cache[k]
 
 
 class Sink(io.RawIOBase):
@@ -430,8 +429,8 @@ def t_histories(count=60):
 
 
 # ---------------------------------------------------------------------------------------------
-def base_image():
-    b = Build('1.09')
+def base_image(ver='1.09', xa=False):
+    b = Build(ver, xa)
     deep(b)
     b.file('/FOO.;1', 'foo')
     b.file('/LONG.;1', 'L' * 400)
@@ -517,8 +516,13 @@ def t_corruptions():
     return len(cases)
 
 
-def t_fuzz(iterations=3000):
-    img = base_image()
+def t_fuzz():
+    fuzz('1.09', False, 2000)
+    fuzz('1.12', True, 1000)
+
+
+def fuzz(ver, xa, iterations):
+    img = base_image(ver, xa)
     iso = ecma119.decode(img)
     v0 = susp.decode(img, iso)
     sectors = set()
@@ -527,7 +531,7 @@ def t_fuzz(iterations=3000):
             sectors.update(range(s // SEC, (e + SEC - 1) // SEC))
     sectors = sorted(sectors)
     used = {s: max((i for i in range(SEC) if img[s * SEC + i]), default=0) + 1 for s in sectors}
-    rnd = random.Random(20261002)
+    rnd = random.Random(20261002 + iterations)
     slowest, internal, upstream, keys = 0.0, [], 0, set()
     for it in range(iterations):
         m = bytearray(img)
@@ -552,20 +556,16 @@ def t_fuzz(iterations=3000):
         internal.extend((it, d) for k, d in v.problems if k.startswith('decode:') and fi is not None)
     check(not internal, 'fuzz: internal exceptions', internal[:3])
     check(slowest < 2.0, 'fuzz: slowest decode', slowest)
-    NOTES.append('fuzz: %d iterations over %d sectors, slowest decode %.3fs, %d distinct problem keys, ecma119 raised %d times'
-                 % (iterations, len(sectors), slowest, len(keys), upstream))
+    NOTES.append('fuzz %s%s: %d iterations over %d sectors, slowest decode %.3fs, %d distinct problem keys, ecma119 raised %d times'
+                 % (ver, '+xa' if xa else '', iterations, len(sectors), slowest, len(keys), upstream))
 
 
 def main():
     t0 = time.time()
-    scratch = tempfile.mkdtemp(prefix='test_susp_')
-    try:
-        for fn in (t_basic, t_names, t_symlinks, t_deep, t_reloc_long_name, t_multi_extent, t_histories, t_corruptions, t_fuzz):
-            t = time.time()
-            r = fn()
-            print('%-14s %s  %.1fs' % (fn.__name__, 'done' if r is None else '%s cases' % r, time.time() - t))
-    finally:
-        shutil.rmtree(scratch, ignore_errors=True)
+    for fn in (t_basic, t_names, t_symlinks, t_deep, t_reloc_long_name, t_multi_extent, t_histories, t_corruptions, t_fuzz):
+        t = time.time()
+        r = fn()                                # everything lives in memory: no scratch files
+        print('%-18s %s  %.1fs' % (fn.__name__, 'done' if r is None else '%s cases' % r, time.time() - t))
     for n in NOTES:
         print('note:', n)
     for (scen, key), labels in sorted(KNOWN_HITS.items()):
